@@ -290,8 +290,12 @@ def _as_base_exponent(f):
         if isinstance(exponent, ScalarValue) and not isinstance(exponent._value, complex):
             pair = _as_base_exponent(base)
             if pair is not None:
-                base, inner = pair
-                return base, inner * exponent._value
+                inner_base, inner = pair
+                if inner == 1 or exponent._value == int(exponent._value):
+                    return inner_base, inner * exponent._value
+                # (b**p)**q != b**(p*q) in general for a non-integer q,
+                # e.g. (b**2)**0.5 = |b|: keep the power as an opaque base
+                return f, 1
         return None
     elif isinstance(f, Division):
         numerator, denominator = f.ufl_operands
